@@ -135,6 +135,9 @@ func (vc *VC) idxLit(v int64) Term {
 // sortOf maps a Go type to the SMT sort of its values (pointers are Ref).
 func (vc *VC) sortOf(t types.Type) *Sort {
 	if isU256(t) {
+		if vc.mode == ModeMath {
+			return sortInt
+		}
 		return sortBV(256)
 	}
 	if isBigInt(t) {
